@@ -39,7 +39,7 @@ FUNCS = ["asum", "axpy", "copy", "dot", "dotu", "nrm2", "iamax", "scal", "swap",
          "gemm", "symm", "hemm", "syrk", "herk", "syr2k", "her2k", "trmm", "trsm"]
 REQUIRED_COUNTERS = (["accept." + f for f in FUNCS] + ["reject." + f for f in FUNCS] +
                      ["stratum.1", "stratum.2", "stratum.3", "stratum.4", "omitted-dim", "negative-inc", "zero-dim",
-                      "tc.d", "tc.z"])
+                      "tc.d", "tc.z", "same-matrix-operands.swap"])
 
 # |got - ref| <= TOLF * 8 (K+2) u * (|alpha||A||x| + |beta||y|)   (DESIGN.md Appendix C).  The evidence prints
 # max_observed["ratio.*"] = error / (8 (K+2) u scale) over all passing calls; on the unchanged tree it stays
@@ -235,8 +235,55 @@ def run(ctx):
 
     WEIGHTS = [1, 1, 1, 1, 2, 2, 2, 3, 3, 3, 4, 4]     # strata 1:2:3:4 = 4:3:3:2
 
+    def same_matrix_case(c, rng):
+        """two vector operands addressed inside ONE matrix object (rows / interleaved elements of the same buffer):
+        element-disjoint footprints, so the reference operation is well defined - the classic row interchange"""
+        from cvxopt import matrix
+        tc = rng.choice("dz")
+        m, n = rng.randint(2, 5), rng.randint(1, 5)
+        fn = rng.choice(["swap", "swap", "copy", "axpy"])
+        vals = [(complex(rng.uniform(-3, 3), rng.uniform(-3, 3)) if tc == "z" else rng.uniform(-3, 3)) for _ in range(m * n)]
+        A = matrix(vals, (m, n), tc)
+        ref = np.array(vals, dtype=DT[tc])
+        mode = rng.choice(["rows", "rows", "even-odd", "row-reversed"])
+        if mode == "even-odd":
+            k = (m * n) // 2
+            ix = dict(n=k, incx=2, incy=2, offsetx=0, offsety=1)
+        else:
+            i, j = rng.sample(range(m), 2)
+            ix = dict(n=n, incx=m, incy=(-m if mode == "row-reversed" else m), offsetx=i, offsety=j)
+        nn = ix["n"]
+        xi = [ix["offsetx"] + t * abs(ix["incx"]) for t in range(nn)]
+        yi = [ix["offsety"] + t * abs(ix["incy"]) for t in range(nn)]
+        if ix["incy"] < 0: yi = yi[::-1]
+        want = ref.copy()
+        alpha = (complex(rng.uniform(-2, 2), rng.uniform(-2, 2)) if tc == "z" and rng.random() < 0.5 else rng.choice([2.0, -1.0, 0.5]))
+        if fn == "swap":
+            want[xi], want[yi] = ref[yi], ref[xi]
+        elif fn == "copy":
+            want[yi] = ref[xi]
+        else:
+            want[yi] = ref[yi] + alpha * ref[xi]
+        c.desc.update({"fn": fn, "class": "same-matrix-operands", "mode": mode, "tc": tc, "m": m, "n": n, "args": ix})
+        ctx.count("same-matrix-operands." + fn)
+        c.check()
+        try:
+            if fn == "axpy":
+                blas.axpy(A, A, alpha=alpha, **ix)
+            else:
+                getattr(blas, fn)(A, A, **ix)
+        except (TypeError, ValueError) as e:
+            c.fail("%s:same-matrix-disjoint-vectors-rejected" % fn, "%s(A, A, %r) rejected: %s" % (fn, ix, e)); return
+        got = np.array(list(A), dtype=DT[tc])
+        tol = 1e-13 * (1 + float(np.max(np.abs(want), initial=0)))
+        c.require(bool(np.all(np.abs(got - want) <= tol)), "%s:same-matrix-disjoint-vectors-result" % fn,
+                  "%s(A, A, %r): result differs from the reference on the addressed elements or elsewhere" % (fn, ix), got=got, want=want)
+        c.cls("same-matrix", fn, mode, tc)
+
     def one(c):
         rng = c.rng
+        if rng.random() < 0.01:
+            return same_matrix_case(c, rng)
         fn = FUNCS[(c.k + ctx.worker * 7) % len(FUNCS)] if rng.random() < 0.8 else rng.choice(FUNCS)
         stratum = rng.choice(WEIGHTS)
         call = B.gen_call(rng, fn, stratum)
